@@ -8,9 +8,12 @@ func init() {
 		Funcs: []string{
 			"nat.NewManager", "nat.Manager.getOrCreateSubscriberID", "nat.Manager.AddPublicIP", "nat.Manager.AllocateNAT",
 			"nat.Manager.DeallocateNAT", "nat.Manager.GetAllocation", "nat.ipToKey", "nat.log2", "nat.Manager.buildFlags",
+			// the compliance log: one record per event, every buffered record written once, no aliasing of flushed storage
+			"nat.Logger.LogAllocation", "nat.Logger.LogDeallocation", "nat.Logger.addEntry", "nat.Logger.addPortBlockEntry",
+			"nat.Logger.Flush", "nat.Logger.FlushPortBlocks",
 		},
 		Undecided: []string{
-			"log/attribution clause: that every allocation and release produces a log record sufficient to map (public address, port, time) to one subscriber is NOT decided. Logger.LogAllocation/LogDeallocation are trusted frames only; no ghost log is modelled. Observed by reading (not verified): no record when natLogger == nil or Logger.enabled == false; non-bulk records carry only PortStart (no PortEnd/block size); LogDeallocation records carry no subscriber id and no PortEnd; records are buffered in memory before being written",
+			"log/attribution clause, PARTLY decided: AllocateNAT logs exactly once on the path that creates a block and never otherwise, DeallocateNAT exactly once in the call that removed the allocation (ghost call counters); LogAllocation / LogDeallocation put exactly one record into the live buffer when logging is enabled; Flush / FlushPortBlocks hand every buffered record to the writer exactly once and restart the live buffer on storage the flush does not share (records being written cannot be overwritten by later log calls). NOT decided: the content of the records (by reading: non-bulk records carry only PortStart, release records carry no subscriber id and no PortEnd, so attribution relies on the fixed block size and on the preceding allocate record), no record when natLogger == nil or Logger.enabled == false, the formatting and file/rotation layer (trusted), records lost when the process stops before a flush",
 			"'same public address' is approximated by 'same pool index'; two pool entries with the same address are not excluded by any invariant (AddPublicIP does not deduplicate: refuted by replay)",
 			"kernel-side state (subscriber_nat map contents) is outside the Go heap model",
 			"invariant pcnt (0 <= Subscribers <= MaxSubscribers) at DeallocateNAT's poolMu.Unlock is locally provable only with the optional guard `Subscribers > 0` (fix_6); without it it needs a counting argument across allocationMu and poolMu (ghost state) and stays undecided",
@@ -24,7 +27,7 @@ func init() {
 		Select: notDerivedKeyEnsures,
 		Trusted: []string{
 			"cilium/ebpf (*Map).Put/Update/Delete only read their arguments and have no effect on Go state (error result unconstrained)",
-			"nat.Logger.LogAllocation / LogDeallocation modify only Logger fields (buffer, portBlockBuffer, currentFile, currentSize); bodies not verified",
+			"nat.Logger.formatEntry / formatPortBlockEntry (no effect) and writeWithRotation (touches only currentFile/currentSize; one line per call): trusted frames, bodies not verified",
 			"zap logger calls, net.IP.To4/String, time.Now/Since: no effect on modelled state",
 		},
 		Explanation: "Lock invariants over `allocations`: every block lies inside [portRangeStart, portRangeEnd] with exactly portsPerSubscriber ports (ablk, uint16 conversions exact), two different keys with the same pool index hold disjoint ranges (adisj); over `pool`: MaxSubscribers*portsPerSubscriber fits the range (pmax), 0 <= Subscribers <= MaxSubscribers (pcnt); over the id table: ids are pairwise different and below the counter. Postconditions of AllocateNAT: stable path returns the stored allocation; allocating path adds a key that was absent at the insertion point and leaves every other entry unchanged. Proved: range/size of every block for every configuration satisfying natCfgOK, capacity bookkeeping in AddPublicIP/AllocateNAT, id stability and uniqueness below the wrap. NewManager validates the configuration (fix_5), AddPublicIP rejects duplicate addresses. Failing (genuine, with replays, need a redesign): adisj cannot be preserved by AllocateNAT (block start derived from the subscriber COUNT: release from the middle then allocate overlaps a live block), check-then-act between the RLock'ed existence check and the insertion (a concurrent AllocateNAT for the same address overwrites the entry: the first caller's block is no longer recorded and stays counted).",
